@@ -13,7 +13,7 @@ from vmon.libutil import monitored, xtce_element
 
 LEVEL = "exploration"
 SHARDS = {"quick": 16, "thorough": 16}
-MUST = ["string.term_several_code_units", "route.rewritten_ok", "sequence.cases", "len.lookup-zero", "len.fractional-reference", "string.whole", "string.term", "string.lead", "binary", "len.fixed", "len.dyn", "len.lookup", "len.zero", "len.not-multiple-of-8",
+MUST = ["string.term_several_code_units", "generic_charset.text_starting_with_bom_character", "route.rewritten_ok", "sequence.cases", "len.lookup-zero", "len.fractional-reference", "string.whole", "string.term", "string.lead", "binary", "len.fixed", "len.dyn", "len.lookup", "len.zero", "len.not-multiple-of-8",
         "offset.unaligned", "charset.multi", "charset.single", "route.ctor", "route.xml", "expected.errors", "dyn.calibrated", "dyn.raw"]
 RULE = ("case = (string/binary encoding IR, values of the referenced length parameters, content bits, bit offset, "
         "construction route). Directed grid: 8 concrete character sets (+ generic UTF-16/UTF-32 with byteOrder) x "
@@ -264,8 +264,11 @@ def run(ctx):
         unit = ref.CODE_UNIT[charset]
         for L in (8 * unit * 3, 8 * unit * 5):
             codec = charset.lower() + ("-be" if bo == ir.MSB else "-le")
-            for delim in ("whole", "term"):
-                text = "AĀ9xyz"[:L // (8 * unit) - (1 if delim == "term" else 0)]
+            for delim, lead_text in (("whole", "AĀ9xyz"), ("term", "AĀ9xyz"), ("whole", "\ufeffAB9xy"), ("term", "\ufeffAB9xy"), ("whole", "\ufffeĀBxyz"), ("whole", "A\ufeffBxyz")):
+                # text may begin with (or contain) U+FEFF / U+FFFE: with a declared byte order these are ordinary characters of the text
+                text = lead_text[:L // (8 * unit) - (1 if delim == "term" else 0)]
+                if text[:1] in ("\ufeff", "\ufffe"):
+                    ctx.count("generic_charset.text_starting_with_bom_character")
                 raw = text.encode(codec) + ("\x00".encode(codec) if delim == "term" else b"")
                 raw = (raw + bytes(L // 8))[:L // 8]
                 enc = ir.StrEnc(charset, L, "\x00".encode(codec).hex() if delim == "term" else None, None, bo)
